@@ -143,7 +143,7 @@ class Stats:
         self.nontrivial |= o.nontrivial
         have = Counter(v["fingerprint"] for v in self.violations)
         for v in o.violations:
-            if have[v["fingerprint"]] < 3 and len(self.violations) < 600:
+            if have[v["fingerprint"]] < 2 and len(self.violations) < 3000:
                 self.violations.append(v)
                 have[v["fingerprint"]] += 1
         self.viol_count += o.viol_count
@@ -186,7 +186,7 @@ def _record(stats, ctx, out, new_from, sample_every):
             stats.viol_count += 1
             stats.viol_fps[v["fingerprint"]] += 1
             # keep at most 3 full records per fingerprint
-            if stats.viol_fps[v["fingerprint"]] <= 3 and len(stats.violations) < 200:
+            if stats.viol_fps[v["fingerprint"]] <= 2 and len(stats.violations) < 3000:
                 rec = dict(v)
                 rec["choices"] = list(ctx.choices)
                 rec["scenario"] = ctx.scenario()
